@@ -232,3 +232,33 @@ def is_int_test(e, folder, var_text: str, op: str, c: int) -> bool:
     from sa.load import norm as _norm
     v = var_cmp(e, folder)
     return v is not None and _norm(v[0]).replace(" ", "") == var_text.replace(" ", "") and same_int_test(v[1], v[2], op, c)
+
+
+def share(rep, producer, new_rule: str, keep, description: str | None = None):
+    """Run another property's rule function and keep the obligations selected by `keep` under this property's rule id:
+    some clauses are necessary conditions of more than one property (the lock protocol for atomic ref updates, flush and
+    fsync before rename for crash consistency, ...).  Returns the number of obligations kept (0 is an analysis error)."""
+    from sa.load import AnalysisError
+    before = len(rep.obs)
+    rules_before = dict(getattr(rep, "rules", {}))
+    saved = {k: (list(getattr(rep, k)) if isinstance(getattr(rep, k), list) else dict(getattr(rep, k)))
+             for k in ("notes", "counts", "not_decided", "assumptions", "floors") if hasattr(rep, k)}
+    producer()
+    new = rep.obs[before:]
+    del rep.obs[before:]
+    for k, v in saved.items():
+        setattr(rep, k, v)
+    # rule descriptions registered by the producer belong to the other property
+    if hasattr(rep, "rules"):
+        for k in list(rep.rules):
+            if k not in rules_before:
+                del rep.rules[k]
+    kept = [o for o in new if keep(o)]
+    for o in kept:
+        o.rule = new_rule
+        rep.obs.append(o)
+    if description:
+        rep.rule(new_rule, description)
+    if not kept:
+        raise AnalysisError(f"{new_rule}: the shared rule produced no obligation")
+    return len(kept)
